@@ -22,7 +22,9 @@ EXPLANATION = ("Timestamp formatter tables. R1 (fractional seconds, exhaustive o
                "on a grid that divides 15 minutes (every UTC offset in use is a multiple of 15 minutes), GMT on noon/midnight; the "
                "elapsed seconds are taken against the cached timestamp before it is overwritten; the populate step converts the same "
                "timestamp with the conversion that matches the zone and caches hour*3600 + min*60 + sec."
-               ' R4g: the next rebuild point is only ever assigned a freshly computed value. R6b: every recorded position is patched, unconditionally within its case. R7: gmtime_rs / localtime_rs / timegm delegate to the libc conversion of the same kind (no libc call at all: analysis broken). R8 (= C12.R7): options equality over every member.')
+               ' R4g: the next rebuild point is only ever assigned a freshly computed value. R6b: every recorded position is patched, unconditionally within its case. R7: gmtime_rs / localtime_rs / timegm delegate to the libc conversion of the same kind (no libc call at all: analysis broken). R8 (= C12.R7): options equality over every member.'
+               " R3d/R3e: conversions that print the time of day outside the patched set (%c, %-H, %OS, %EX ...) are detected at init by a constexpr scanner — checked by a compile-time witness against an independent reference of strftime's conversion grammar — and such a pattern is rendered by strftime for every timestamp (or rejected); no cached text can be returned for it (found the tree's fifteenth defect).")
+TECHNIQUE = 'static analysis: custom checker over clang AST/CFG facts (table, width and cache-coherence rules) plus a compile-time witness (static_assert table of patterns evaluated by the compiler) for the constexpr conversion scanner'
 NOT_DECIDED = ("Equality with strftime for every instant, zone and sequence as values (DST shifts, historical zone offsets that are not "
                "multiples of 15 minutes, the arithmetic of the hour/minute/second patching over all elapsed times): left to dynamic "
                "techniques. R4 decides the shape of the cache's state machine, not its output.")
@@ -39,6 +41,7 @@ def run(ctx):
     r3(ctx, facts)
     r4(ctx, facts)
     r7_time_utilities(ctx, facts)
+    r3_time_conversions_outside_the_cache(ctx, facts)
     # the formatter (time zone, timestamp pattern) a logger's lines are rendered with is its own: shared with C12.R7
     from rules import c12
     from rules.c09 import Renamed
@@ -116,6 +119,7 @@ def r1(ctx, facts):
     fdecls = f.var_decls()
     per = {}
     bases = set()
+    arms = []       # (enumerator name, value, nodes evaluated for that specifier in order, sort key)
     for bid, b in fg.blocks.items():
         cond = fg.term_cond(bid)
         if cond is None:
@@ -124,7 +128,20 @@ def r1(ctx, facts):
         if not (nc and nc[0] == "==" and any(is_this_field(x, "_additional_format_specifier") for x in walk(cond))):
             continue
         ename, ev = enum_const(cond, "AdditionalSpecifier")
-        after = [fg.node_ast(p) for p in straight_after(fg, bid, "T")]
+        arms.append((ename, ev, [fg.node_ast(p) for p in straight_after(fg, bid, "T")], bid))
+    # the same selection written as a switch over the specifier: one case per enumerator, each a block that ends in break / return
+    for sw_ in [n for n in f.walk() if n["k"] == "SwitchStmt" and is_this_field(strip(n.get("cond"), casts=True), "_additional_format_specifier")]:
+        for cs_ in [n for n in walk(sw_.get("body")) if n["k"] == "CaseStmt"]:
+            ename, ev = enum_const(cs_.get("lhs"), "AdditionalSpecifier")
+            sub = cs_.get("sub")
+            kids = (sub.get("c") or sub.get("stmts") or []) if isnode(sub) and sub["k"] == "CompoundStmt" else None
+            if isnode(sub) and sub["k"] in ("BreakStmt", "ReturnStmt"):
+                continue        # a specifier without fractional digits
+            if not kids or not (isnode(kids[-1]) and kids[-1]["k"] in ("BreakStmt", "ReturnStmt")):
+                raise AnalysisBroken("TimestampFormatter::format_timestamp: a case of the specifier switch is not a block ending in break (%s): "
+                                     "not decided" % cs_.get("loc"))
+            arms.append((ename, ev, [x for x in walk(sub) if isnode(x) and x["k"] in ("CXXMemberCallExpr", "CallExpr", "CXXOperatorCallExpr")], 10 ** 6 + len(arms)))
+    for (ename, ev, after, bid) in arms:
         width, div, wf = None, None, False
         for n in after:
             if is_call(n, r"::append\b") and is_this_field(call_obj(n), "_formatted_date") and not wf:
@@ -301,6 +318,10 @@ def r2(ctx, facts):
                 return "minutes"
             if var_ref(e) is not None:
                 return "seconds"  # remainder after hours and minutes were subtracted
+            while isnode(e) and e["k"] == "ParenExpr":
+                e = strip(e.get("sub") or (e.get("c") or [None])[0], casts=True)
+            if isnode(e) and e["k"] == "ConditionalOperator" and not ft.assignments_to_var(v):
+                return "hours12" if twelve_hour_form(e) else "?"     # the 12-hour value held in a local computed once
         if is_this_field(strip(val, casts=True), "_cached_timestamp"):
             return "epoch"
         s = strip(val, casts=True)
@@ -416,6 +437,12 @@ def r2(ctx, facts):
             allowed.append((bid, "T" if nc[0] == "==" else "F"))
         if nc and nc[0] in ("<", "<=") and nc[1] == "v%d" % ts and nc[2] == "this._cached_timestamp" and nc[0] == "<":
             allowed.append((bid, "T"))  # the backwards guard (C13.R4a)
+            # ... and whatever else is or-ed with it (a pattern that is never cached, R3d): tests whose outcome leads to the same block
+            tgt_ = [y for (y, l2) in fg.succ.get(tnode(fg, bid), ()) if l2 == "T"]
+            for b2 in fg.blocks:
+                for (y, l2) in fg.succ.get(tnode(fg, b2), ()):
+                    if y in tgt_ and l2 in ("T", "F") and (b2, l2) not in allowed and b2 != bid:
+                        allowed.append((b2, l2))
     rets = fg.return_nodes()
     ok = bool(upd) and len(allowed) >= 3 and not fg.exists_path([fg.entry_node], rets, avoid_nodes=upd, avoid_edges=allowed) and \
         all(not fg.exists_path([tnode(fg, b)], upd, avoid_edges=[(b, other(l))]) for (b, l) in allowed)
@@ -558,8 +585,12 @@ def r4(ctx, facts):
     ok = lab is not None
     why = "guard is 'timestamp < cached'"
     if ok:
-        reg = g.reach([tnode(g, bid)], avoid_edges=[(bid, other(lab))])
-        only = g.reach([tnode(g, bid)], avoid_edges=[(bid, lab)])
+        # the guard may be one operand of a disjunction ('went backwards' || 'this pattern is never cached'): every test whose outcome
+        # leads to the same block belongs to it
+        tgt = [y for (y, l2) in g.succ.get(tnode(g, bid), ()) if l2 == lab]
+        chain = [(b2, l2) for b2 in g.blocks for (y, l2) in g.succ.get(tnode(g, b2), ()) if y in tgt and l2 in ("T", "F")]
+        reg = set(g.reach(tgt, include_src=True))
+        only = set(g.reach([g.entry_node], avoid_edges=chain, include_src=True))
         excl = [p for p in reg if p not in only]
         st = [n for n in f.calls(r"::_safe_strftime$") if any(p in excl for p in g.positions(n))]
         arg_ok = bool(st) and all(var_ref(n["args"][1]) == ts for n in st)
@@ -769,3 +800,101 @@ def r7_time_utilities(ctx, facts):
             for (b, lab) in fail_edges)
         ctx.ob("C13.R7c", "%s:failure-throws" % name, ok_thr,
                "libc's failure result (%s) ends in a throw on every path, never in a returned value" % ("null" if nargs == 2 else "-1"), fn=f)
+
+
+def _ref_uncacheable(fmt):
+    """independent reference (strftime's grammar: % [flags] [width] [E|O] conversion): does the pattern print the time of day through a
+    conversion that is not one of the plain two-character forms the cache patches (%H %M %S %I %k %l %s), expands (%r %R %T) or
+    rejects (%X)?"""
+    import re as _re
+    i = 0
+    while i < len(fmt) - 1:
+        if fmt[i] != "%":
+            i += 1
+            continue
+        if fmt[i + 1] == "%":
+            i += 2
+            continue
+        m = _re.match(r"%([_\-^#0-9EO]*)(.)", fmt[i:], _re.S)
+        if not m:
+            break
+        mods, conv = m.group(1), m.group(2)
+        if conv == "c" or (mods and conv in "HMSIklsXrRT"):
+            return True
+        i += len(m.group(0))
+    return False
+
+
+def r3_time_conversions_outside_the_cache(ctx, facts):
+    """R3d/R3e: 'caching never lets a later timestamp show stale fields'. The cache patches the positions of %H %M %S %I %k %l %s written
+    exactly like that; strftime also accepts flags, a width and E / O in front of the conversion (%-H, %OS, %EX) and has %c — rendered by
+    strftime itself, they would stay frozen in the cached string (the tree's fifteenth defect). R3d (structure): init derives a flag from
+    the expanded pattern before the parts are populated, and on the flag's 'set' outcome format_timestamp renders through strftime and
+    returns before any cached text can be returned. R3e (compile-time witness): the constexpr scanner that computes the flag agrees with an
+    independent reference of strftime's conversion grammar on every pattern of length <= N over '% - 0 E O H c T p a'."""
+    ini = facts.need(SF + "::init", "A")[0]
+    g = ini.g
+    # the scanner: a library function called by init on the pattern whose boolean verdict is kept in a member (route to strftime) or ends
+    # in a throw (reject, the way %X is)
+    scan = [c for c in ini.calls(r"^quill::") if (c.get("ty") or "").replace("const ", "") == "bool" and c.get("args") and
+            any(is_this_field(x, "_timestamp_format") for a_ in c["args"] for x in walk(a_))]
+    asg = [n for n in ini.walk() if n["k"] == "BinaryOperator" and n["op"] == "=" and is_this_field(n["lhs"]) and any(x is scan[0] for x in walk(n["rhs"]))] if scan else []
+    if scan and not asg:
+        rej = [(b, t) for (b, t, c) in branches_on_call(ini, "^" + re.escape(scan[0]["callee"]) + "$")]
+        thr = npos(ini, [x for x in ini.walk() if x["k"] == "CXXThrowExpr"])
+        rejected = bool(rej) and bool(thr) and all(not g.exists_path([y for (y, l2) in g.succ.get(tnode(g, b), ()) if l2 == t], [g.exit_node], avoid_nodes=thr) for (b, t) in rej)
+        ctx.ob("C13.R3d", "StringFromTime::init:time-conversions-outside-the-cache-detected", rejected,
+               "a pattern for which %s says 'prints the time of day outside the cache' is rejected with a throw on every path" % short(scan[0]["callee"]).split("::")[-1], fn=ini)
+        scanner = scan[0]["callee"]
+    elif not scan or not asg:
+        ctx.ob("C13.R3d", "StringFromTime::init:time-conversions-outside-the-cache-detected", False,
+               "init() does not derive, from the pattern, whether it prints the time of day through a conversion the cache cannot patch "
+               "(%c, %-H, %OS, %EX, ...): such a pattern is cached and shown stale", fn=ini)
+        return
+    if asg:
+        flag = field_name(asg[0]["lhs"])
+        on_fmt = any(is_this_field(x, "_timestamp_format") for x in walk(scan[0]["args"][0]))
+        exp = npos(ini, ini.calls(r"StringFromTime::_replace_all$"))
+        pop = npos(ini, ini.calls(r"StringFromTime::_populate_initial_parts$"))
+        ap = npos(ini, asg)
+        order = bool(exp) and bool(pop) and not g.exists_path(ap, exp) and not g.exists_path([g.entry_node], pop, avoid_nodes=ap)
+        ft = facts.need(SF + "::format_timestamp", "A")[0]
+        fg = ft.g
+        fe = []
+        for bid, b in fg.blocks.items():
+            c = fg.term_cond(bid)
+            if c is None:
+                continue
+            core, neg = core_and_neg(c)
+            if is_this_field(strip(core, casts=True), flag):
+                fe.append((bid, "F" if neg else "T"))
+        direct = npos(ft, ft.calls(r"StringFromTime::_safe_strftime$"))
+        cached_rets = [p for p in fg.return_nodes() if is_this_field(strip(fg.node_ast(p).get("val"), casts=True), "_pre_formatted_ts")]
+        routed = bool(fe) and bool(direct) and bool(cached_rets) and \
+            all(not fg.exists_path([y for (y, l2) in fg.succ.get(tnode(fg, b), ()) if l2 == t], cached_rets) and
+                not fg.exists_path([y for (y, l2) in fg.succ.get(tnode(fg, b), ()) if l2 == t], [fg.exit_node], avoid_nodes=direct) for (b, t) in fe) and \
+            not fg.exists_path([fg.entry_node], cached_rets, avoid_nodes=[tnode(fg, b) for (b, t) in fe])
+        ctx.ob("C13.R3d", "StringFromTime::init:time-conversions-outside-the-cache-detected", on_fmt and order and routed,
+               "the flag %s is computed from the pattern after %%r / %%R / %%T were expanded and before the parts are populated (%s, %s); every "
+               "path of format_timestamp to a return of the cached text passes the flag's test, and on its 'set' outcome the text comes from "
+               "strftime (%s)" % (flag, on_fmt, order, routed), fn=ini)
+        scanner = scan[0]["callee"]
+    # R3e: the scanner itself, evaluated by the compiler
+    import itertools, ctw
+    alphabet = "%-0EOHcTpa"
+    N = 4 if ctx.tier == "quick" else 5
+    rows, pats = [], []
+    for L in range(0, N + 1):
+        for t in itertools.product(alphabet, repeat=L):
+            p = "".join(t)
+            rows.append('{"%s", %s}' % (p, "true" if _ref_uncacheable(p) else "false"))
+            pats.append(p)
+    bad = ctw.static_table("sft-uncacheable-%d" % N,
+                           '#include "quill/backend/StringFromTime.h"\n#include <string_view>',
+                           "std::string_view p; bool u;", rows, "%s(r.p) == r.u" % scanner, step=1024)
+    ctx.units.add(("sft-uncacheable-witness(len<=%d)" % N, "A"))
+    ctx.floor("C13.R3e", "patterns in the witness table", len(rows), 10000)
+    ctx.ob("C13.R3e", "%s:agrees-with-strftime-grammar" % scanner.replace("quill::detail::", ""), not bad,
+           "compile-time witness over all %d patterns of length <= %d over '%s': the constexpr scanner says 'outside the cache' exactly for "
+           "%%c and for a time-of-day conversion (H M S I k l s X r R T) written with flags, a width or E / O%s"
+           % (len(rows), N, alphabet, ("; first mismatches: " + "; ".join("'%s'" % pats[i] for i in bad[:4])) if bad else ""), loc="backend/StringFromTime.h")
